@@ -226,6 +226,20 @@ def enumerate_cases(tier):
                             others.append(o)
                         yield "multi-file-grid", {"mode": "multi", "file": fs, "others": others, "how": how, "cdim": cdim, "align": align, "sort": sort,
                                                   "keys": keys, "names": None}
+    # slices read from disk: every position slice (start, stop, step incl. negative steps of 2 and 3) on both dimensions of a 4 x 5 variable,
+    # and label slices on an increasing and a decreasing axis - values AND labels against the loaded array
+    fs2 = {"vars": [["v0", {"dims": ["x", "y"], "labels": [[40, 30, 20, 10], [0.5, 1.5, 2.5, 3.5, 4.5]], "vk": "f", "base": 0, "attrs": {}}]], "attrs": {}}
+    for dim in (0, 1):
+        n = 4 if dim == 0 else 5
+        for step in (None, 2, -1, -2, -3):
+            for start in (None, 0, 1, n - 1, -2):
+                for stop in (None, 0, 2, -1):
+                    pidx = [{"k": "full"}, {"k": "full"}]
+                    pidx[dim] = {"k": "pslice", "v": [start, stop, step]}
+                    yield "ondisk-slice-grid", {"mode": "read", "file": fs2, "var": 0, "lidx": [{"k": "full"}, {"k": "full"}], "pidx": pidx, "tol": None, "keepdims": False, "by": "label"}
+    for lidx in ([{"k": "slice", "v": [30, 10, -2]}, {"k": "full"}], [{"k": "slice", "v": [None, None, -2]}, {"k": "full"}], [{"k": "full"}, {"k": "slice", "v": [4.5, 0.5, -2]}],
+                 [{"k": "full"}, {"k": "slice", "v": [3.5, None, -3]}], [{"k": "slice", "v": [40, 20, 2]}, {"k": "slice", "v": [None, 1.5, -2]}]):
+        yield "ondisk-slice-grid", {"mode": "read", "file": fs2, "var": 0, "lidx": lidx, "pidx": [{"k": "full"}, {"k": "full"}], "tol": None, "keepdims": False, "by": "label"}
     # several variables created through ONE writable handle (h[name] = array): what one assignment needed (e.g. the fill value taken
     # from the CF attribute `missing_value` of the first array) must not leak into the next: each later variable reads back as assigned
     for first_missing in (None, -99, 0):
